@@ -85,6 +85,50 @@ def enorm(expr, fn):
     return norm(expanded(expr, fn))
 
 
+def norm_(e):
+    try:
+        return ast.unparse(e)
+    except Exception:
+        return ""
+
+
+def _split_starred_unpacking(tree):
+    """`*head, last = (a, b, c)` (a literal tuple on the right) -> uses of `head` read `(a, b)` and uses of `last` read `c`;
+    the unpacking statement disappears. Applied per function body; only for names bound once."""
+    for fn in [n for n in ast.walk(tree) if isinstance(n, ast.FunctionDef)]:
+        changed = True
+        while changed:
+            changed = False
+            for i, st in enumerate(list(fn.body)):
+                if isinstance(st, ast.Assign) and len(st.targets) == 1 and isinstance(st.targets[0], ast.Tuple) \
+                        and isinstance(st.value, (ast.Tuple, ast.List)) \
+                        and sum(isinstance(t, ast.Starred) for t in st.targets[0].elts) == 1 \
+                        and all(isinstance(t.value if isinstance(t, ast.Starred) else t, ast.Name) for t in st.targets[0].elts):
+                    tg, vals = st.targets[0].elts, list(st.value.elts)
+                    k = next(j for j, t in enumerate(tg) if isinstance(t, ast.Starred))
+                    after = len(tg) - k - 1
+                    if len(vals) < len(tg) - 1:
+                        continue
+                    m = {}
+                    for j in range(k):
+                        m[tg[j].id] = vals[j]
+                    m[tg[k].value.id] = ast.Tuple(elts=vals[k:len(vals) - after], ctx=ast.Load())
+                    for j in range(after):
+                        m[tg[k + 1 + j].id] = vals[len(vals) - after + j]
+                    # the names must not be rebound elsewhere in the function
+                    stores = [x.id for x in ast.walk(fn) if isinstance(x, ast.Name) and isinstance(x.ctx, ast.Store)]
+                    params = {a.arg for a in fn.args.args}
+                    if any(stores.count(nm) != 1 for nm in m) and not all(
+                            isinstance(v, ast.Name) and v.id == nm for nm, v in m.items() if stores.count(nm) != 1 or nm in params):
+                        continue
+                    rest = fn.body[:i] + fn.body[i + 1:]
+                    m2 = {nm: v for nm, v in m.items() if not (isinstance(v, ast.Name) and v.id == nm)}
+                    fn.body = [substitute_stmt(b, m2) for b in rest]
+                    changed = True
+                    break
+    return tree
+
+
 def fold_static(tree):
     """in place: f-strings whose parts are all constants become the constant, `getattr(x, "name")` becomes `x.name`, a
     statement `setattr(x, "name", v)` becomes `x.name = v` — what remains of "the attribute called so-and-so" once a
@@ -109,11 +153,38 @@ def fold_static(tree):
                     and isinstance(node.args[1], ast.Constant) and isinstance(node.args[1].value, str) \
                     and node.args[1].value.isidentifier():
                 return ast.copy_location(ast.Attribute(value=node.args[0], attr=node.args[1].value, ctx=ast.Load()), node)
+            # f(*(a, b), c) -> f(a, b, c)
+            if any(isinstance(a, ast.Starred) and isinstance(a.value, (ast.Tuple, ast.List)) for a in node.args):
+                args = []
+                for a in node.args:
+                    if isinstance(a, ast.Starred) and isinstance(a.value, (ast.Tuple, ast.List)):
+                        args += list(a.value.elts)
+                    else:
+                        args.append(a)
+                node.args = args
             return node
 
         def visit_Expr(self, node):
             self.generic_visit(node)
             c = node.value
+            # methodcaller("m", a, b)(x) as a statement -> x.m(a, b)
+            if isinstance(c, ast.Call) and isinstance(c.func, ast.Call) and norm_(c.func.func) in ("methodcaller", "operator.methodcaller") \
+                    and c.func.args and isinstance(c.func.args[0], ast.Constant) and isinstance(c.func.args[0].value, str) \
+                    and len(c.args) == 1 and not c.keywords:
+                nm = c.func.args[0].value
+                x = c.args[0]
+                rest = list(c.func.args[1:])
+                if nm == "__setitem__" and len(rest) == 2:
+                    return ast.copy_location(ast.Assign(
+                        targets=[ast.Subscript(value=x, slice=rest[0], ctx=ast.Store())], value=rest[1]), node)
+                if nm == "__delitem__" and len(rest) == 1:
+                    return ast.copy_location(ast.Delete(targets=[ast.Subscript(value=x, slice=rest[0], ctx=ast.Del())]), node)
+                if nm == "__imul__" and len(rest) == 1 and isinstance(x, ast.Name):
+                    return ast.copy_location(ast.AugAssign(target=ast.Name(id=x.id, ctx=ast.Store()), op=ast.Mult(), value=rest[0]), node)
+                if nm.isidentifier() and not nm.startswith("__"):
+                    node.value = ast.copy_location(ast.Call(
+                        func=ast.Attribute(value=x, attr=nm, ctx=ast.Load()), args=rest, keywords=list(c.func.keywords)), c)
+                    return node
             if isinstance(c, ast.Call) and isinstance(c.func, ast.Name) and c.func.id == "setattr" and len(c.args) == 3 \
                     and not c.keywords and isinstance(c.args[1], ast.Constant) and isinstance(c.args[1].value, str) \
                     and c.args[1].value.isidentifier():
@@ -121,6 +192,8 @@ def fold_static(tree):
                 return ast.copy_location(ast.Assign(targets=[tgt], value=c.args[2]), node)
             return node
     t = T().visit(tree)
+    _split_starred_unpacking(t)
+    t = T().visit(t)
     for n in ast.walk(t):
         if isinstance(n, ast.Assign):
             for tg in n.targets:
@@ -153,6 +226,8 @@ def inline_helpers(fn, find_method, max_body=12, only=None):
         for i, a in enumerate(call.args):
             if i < len(ps):
                 m[ps[i]] = a
+        if h.args.vararg is not None and not any(isinstance(a, ast.Starred) for a in call.args):
+            m[h.args.vararg.arg] = ast.Tuple(elts=list(call.args[len(ps):]), ctx=ast.Load())
         for k in call.keywords:
             if k.arg:
                 m[k.arg] = k.value
